@@ -10,13 +10,17 @@
    quit messages of DELETE requests are cut by deletesession.go the same way (no Coq model of that handler), ban reasons
    of a posted configuration (network password holder only) are clean, and two texts the model masks as constants
    (captcha URL, server creation date).
-   Open finding: a ~500 byte user name makes the prefix alone exceed 510 bytes, so the truncated line loses its command
-   (known_findings.txt, sig c15:nocommand). *)
+   The head ":prefix command" of every line survives the 510-byte cut (C15_command_intact): cmd_user.go keeps at most
+   32 bytes of the user name (repair of finding c15:nocommand), nicknames are bounded by their syntax, the host part by
+   64-bit session ids; hypotheses: network name <= 255 bytes, services lines carry prefixes / NICK / SERVER parameters
+   of at most 63 bytes (services are trusted; the property is about what clients post). *)
 From stdpp Require Import gmap.
 From Coq Require Import Strings.String List.
 From RV Require Import Irc.Str Irc.Parse Irc.State Irc.Cmds Irc.Apply Api.Auth Api.Post.
 From RV Require Import IrcProofs.Outputs Api.PostProofs.
-From RV Require Import IrcProofs.Top IrcProofs.Clean IrcProofs.CleanHandlers.
+From Coq Require Import ZArith NArith.
+From RV Require Import Base.Text Irc.Monad.
+From RV Require Import IrcProofs.Top IrcProofs.Clean IrcProofs.CleanHandlers IrcProofs.Intact.
 Local Open Scope string_scope.
 
 Theorem C15_length : forall e sv en sv' out,
@@ -93,3 +97,33 @@ Print Assumptions C15_CleanState_spec.
 Theorem C15_nonvacuous : Forall clean_entry Examples.ex_history.
 Proof. exact ex_history_clean. Qed.
 Print Assumptions C15_nonvacuous.
+
+(* truncation to 510 bytes never cuts into ":prefix command": in every state reachable by a history whose session ids
+   are 64-bit and whose trusted lines (services links, SERVER with a services password) carry small prefixes and
+   NICK/SERVER parameters, every line an entry produces starts with its complete head *)
+Theorem C15_command_intact : forall e net es1 en es2 sv sv' out,
+  slen net <= 255 -> intact_history e (init_server net) (es1 ++ en :: es2) ->
+  run e (init_server net) es1 = Some sv -> apply_entry e sv en = OOk sv' out ->
+  forall o, In o out ->
+    exists m, o_data o = msg_bytes m /\ slen (head m) <= 510 /\ Str.has_prefix (head m) (o_data o) = true.
+Proof. exact command_intact. Qed.
+Print Assumptions C15_command_intact.
+
+(* the consequence used above, for any message: a head that fits survives Message.Bytes *)
+Theorem C15_head_kept : forall m, slen (head m) <= 510 -> Str.has_prefix (head m) (msg_bytes m) = true.
+Proof. exact head_kept. Qed.
+Print Assumptions C15_head_kept.
+
+(* one entry, from any state in which the stored names are bounded *)
+Theorem C15_command_intact_entry : forall net e sv en sv' out,
+  slen net <= 255 -> BI net sv -> small_entry_ok sv en -> apply_entry e sv en = OOk sv' out ->
+  Forall outI out /\ (id_entry_ok en -> BI net sv').
+Proof. exact intact_entry. Qed.
+Print Assumptions C15_command_intact_entry.
+
+Theorem C15_stored_names_bounded : forall e net es sv,
+  slen net <= 255 -> intact_history e (init_server net) es -> run e (init_server net) es = Some sv ->
+  forall (k : N * N) s, sv_sessions sv !! k = Some s ->
+    slen (s_nick s) <= 63 /\ slen (s_user s) <= 63 /\ slen (prefix_string (s_prefix s)) <= 400.
+Proof. exact stored_names_bounded. Qed.
+Print Assumptions C15_stored_names_bounded.
